@@ -41,8 +41,7 @@ class FxSystem(System, IDecodable):
     @staticmethod
     def decode(params):
         _emit("system", params["i"], 0, params.get("model") is CURRENT[0] and CURRENT[0] is not None)
-        return FxSystem(params["id"], params["model"], priority=params["priority"], frequency=params["frequency"],
-                        start=params["start"], end=params["end"])
+        return FxSystem(params["id"], params["model"], **{k: params[k] for k in ("priority", "frequency", "start", "end") if k in params})
 
 
 class FxAgent(Agent, IDecodable):
@@ -63,8 +62,7 @@ class FxSystemMain(FxSystem):
     @staticmethod
     def decode(params):
         _emit("system", params["i"], 0, params.get("model") is CURRENT[0] and CURRENT[0] is not None)
-        return FxSystemMain(params["id"], params["model"], priority=params["priority"], frequency=params["frequency"],
-                            start=params["start"], end=params["end"])
+        return FxSystemMain(params["id"], params["model"], **{k: params[k] for k in ("priority", "frequency", "start", "end") if k in params})
 
 
 class FxAgentMain(FxAgent):
